@@ -8,6 +8,7 @@ import (
 	"context"
 	"fmt"
 	"sync"
+	"sync/atomic"
 	"time"
 
 	"github.com/lightninglabs/lightning-node-connect/gbn"
@@ -149,6 +150,8 @@ type CallRec struct {
 	End      time.Duration
 	Returned bool
 	Err      string
+	// StartSeq / EndSeq order calls within one virtual instant.
+	StartSeq, EndSeq int64
 }
 
 // Endpoint is one side of the connection.
@@ -171,7 +174,8 @@ type Endpoint struct {
 }
 
 func (e *Endpoint) begin(thread, kind string, data []byte) *CallRec {
-	c := &CallRec{Thread: thread, Kind: kind, Data: data, Start: e.w.s.Now()}
+	c := &CallRec{Thread: thread, Kind: kind, Data: data, Start: e.w.s.Now(),
+		StartSeq: e.w.callSeq.Add(1)}
 	e.mu.Lock()
 	e.Calls = append(e.Calls, c)
 	e.mu.Unlock()
@@ -181,6 +185,7 @@ func (e *Endpoint) begin(thread, kind string, data []byte) *CallRec {
 func (e *Endpoint) finish(c *CallRec, data []byte, err error) {
 	e.mu.Lock()
 	c.End = e.w.s.Now()
+	c.EndSeq = e.w.callSeq.Add(1)
 	c.Returned = true
 	if data != nil {
 		c.Data = data
@@ -243,10 +248,11 @@ type World struct {
 	s  *vrt.Sched
 	sc *Scenario
 
-	C, S   *Endpoint
-	c2s    *Link
-	s2c    *Link
-	pktSeq int
+	C, S    *Endpoint
+	c2s     *Link
+	s2c     *Link
+	pktSeq  int
+	callSeq atomic.Int64
 
 	lastDelivery time.Duration
 	goalAt       time.Duration
@@ -359,6 +365,9 @@ func (w *World) handshakeDone() bool {
 func (w *World) Actions() []vrt.Action {
 	var acts []vrt.Action
 	sc := w.sc
+	if sc.PreActions != nil {
+		sc.PreActions(w)
+	}
 	hc, hs := w.c2s.head(), w.s2c.head()
 	type dl struct {
 		l *Link
